@@ -359,6 +359,10 @@ class SymbolTable(OpTrait):
         """
         Lookup a symbol by reference, starting from a specific operation's closest
         SymbolTable parent.
+
+        The root reference is looked up in that symbol table; each nested reference is
+        looked up in the symbol found so far, which has to be a symbol table itself,
+        and must not resolve to a private symbol. Returns `None` otherwise.
         """
         # import builtin here to avoid circular import
         from xdsl.dialects.builtin import StringAttr, SymbolRefAttr
@@ -370,16 +374,24 @@ class SymbolTable(OpTrait):
             raise ValueError(f"Operation {op} has no SymbolTable ancestor")
         if isinstance(name, str | StringAttr):
             name = SymbolRefAttr(name)
-        for o in anchor.regions[0].block.ops:
-            if (
-                sym_interface := o.get_trait(SymbolOpInterface)
-            ) is not None and sym_interface.get_sym_attr_name(o) == name.root_reference:
-                if not name.nested_references:
-                    return o
-                nested_root, *nested_references = name.nested_references.data
-                nested_name = SymbolRefAttr(nested_root, nested_references)
-                return SymbolTable.lookup_symbol(o, nested_name)
-        return None
+        symbol_op = anchor
+        references = (name.root_reference, *name.nested_references.data)
+        for i, reference in enumerate(references):
+            # Nested references can only be resolved inside of a symbol table
+            if i and not symbol_op.has_trait(SymbolTable):
+                return None
+            for o in symbol_op.regions[0].block.ops:
+                if (
+                    sym_interface := o.get_trait(SymbolOpInterface)
+                ) is not None and sym_interface.get_sym_attr_name(o) == reference:
+                    break
+            else:
+                return None
+            # Private symbols are not visible from outside of their symbol table
+            if i and o.get_attr_or_prop("sym_visibility") == StringAttr("private"):
+                return None
+            symbol_op = o
+        return symbol_op
 
     @staticmethod
     def insert_or_update(
